@@ -145,6 +145,7 @@ def _daemon_worker(a):
     cfg = proto.Config(svcs, timeout=rng.choice([None, 3600, 3600]), rules=rules or [], use_class=bool(rules))
     s = proto.Session(b, cfg, leaks=True)
     try:
+        nxt_ip = None
         for k in range(n):
             cid = rng.choice([5, 6, 7, 4000 + k])
             if cid in s.open:
@@ -152,7 +153,16 @@ def _daemon_worker(a):
             flow = rng.choice(["plain", "timer", "again", "again"])
             reps = 2 if flow == "again" else 1
             for rep in range(reps):
-                s.do({"t": "announce", "id": cid, "ip": pattern_addr(rng), "port": rng.choice([1, 1024, 65535])})
+                # the local address (the listener the client connected to) is an address text like any other: now and then it is, letter
+                # for letter, the text the NEXT client will be announced with (a listener's own address connecting to another listener)
+                ip_ = nxt_ip if nxt_ip is not None else pattern_addr(rng)
+                nxt_ip = pattern_addr(rng) if seed % 2 else None
+                ev_ = {"t": "announce", "id": cid, "ip": ip_, "port": rng.choice([1, 1024, 65535])}
+                if nxt_ip is not None and rng.random() < 0.5:
+                    ev_["lip"] = nxt_ip
+                elif nxt_ip is not None and rng.random() < 0.3:
+                    ev_["lip"] = pattern_addr(rng)
+                s.do(ev_)
                 evs = [{"t": "host", "id": cid, "name": "h%d.example.org" % k}, {"t": "ident", "id": cid, "name": "~u"}, {"t": "nick", "id": cid, "name": "n%d" % k},
                        {"t": "userinfo", "id": cid, "user": "u", "real": "r"}]
                 rng.shuffle(evs)
